@@ -94,6 +94,28 @@ def compare(ast, sm, schema, text, rng=None):
                 if id(v) not in ids and v is not None and not isinstance(v, (str, int, float, bool, tuple)):
                     out.append(("delivered-object-not-in-tree", "handler %s got %r" % (nm, v)))
                     break
+    if len(names) >= 2:
+        # 1b. a callable that uses the handler again, with another (complete) map, while the first
+        #     call is under way: both calls deliver everything, each to its own map
+        outer_calls, inner_calls = [], []
+        state = {"done": False}
+        inner_map = {nm: (lambda v, nm=nm: inner_calls.append(nm)) for nm in distinct}
+
+        def outer(nm):
+            def f(value):
+                outer_calls.append(nm)
+                if not state["done"] and len(outer_calls) == 1 + len(names) // 2:
+                    state["done"] = True
+                    handler(inner_map)
+            return f
+        try:
+            handler({nm: outer(nm) for nm in distinct})
+        except Exception as e:  # noqa
+            out.append(("handler-used-from-inside-a-callable-raises:%s" % type(e).__name__, repr(e)[:200]))
+        else:
+            if outer_calls != names or inner_calls != names:
+                out.append(("handler-used-from-inside-a-callable", "outer call delivered %r, inner call %r, expected %r each"
+                            % (outer_calls, inner_calls, names)))
     if distinct:
         # 1a. one map OBJECT used for several calls and edited in between without changing its
         #     size: each call answers for the map as it is then; and with every warning turned
